@@ -60,4 +60,10 @@ CHECK_TEXT = {
         "level_note": "Mutated access messages that the independent parser cannot read strictly yield no verdict (counted).",
         "design_ref": "DESIGN.md 6 C09",
     },
+    "C14": {
+        "technique": "runtime monitor in virtual time: observed timeout deliveries vs a harness-side model of armed/stopped timers (exact due times)",
+        "level_text": "Every observed delivery matched the model on all explored arm/stop programs and scheduler settings; stopped timers stayed silent through 30 virtual seconds / 15 idle minutes.",
+        "level_note": "Reach depends on the Go scheduler actually producing the stop-before-select interleavings (GOMAXPROCS 1..8, yields, up to 64 connections per bubble).",
+        "design_ref": "DESIGN.md 6 C14",
+    },
 }
